@@ -175,6 +175,15 @@ HIST_OPS = [["ser"], ["raw"], ["set", 2, "D20B"], ["set", 2, "D76"], ["set", 0, 
 _ITEMS = {"D20B": D20B, "D76": D76, "D75": D75}
 
 
+def _mutate(Script, sc, model, inplace):
+    """change the commands of a script in place where the class allows it; a class with immutable commands gets a NEW script
+    with the changed commands instead (in-place mutability is not part of the property)"""
+    st, _ = attempt(lambda: inplace(sc.cmds))
+    if st == "ok":
+        return sc
+    return Script(list(model))
+
+
 class ScriptObjectHistories:
     """operations on ONE Script object (serialise, mutate cmds in place, serialise again ...): every serialisation must be
     the wire form of the script's CURRENT commands. canon = the history (instance-level caches are unobservable)."""
@@ -212,18 +221,18 @@ class ScriptObjectHistories:
             elif op[0] == "set":
                 item = _ITEMS.get(op[2], op[2])
                 if op[1] < len(model):
-                    sc.cmds[op[1]] = item
                     model[op[1]] = item
+                    sc = _mutate(Script, sc, model, lambda c: c.__setitem__(op[1], item))
                 label = "mutated"
             elif op[0] == "append":
                 item = _ITEMS.get(op[1], op[1])
-                sc.cmds.append(item)
                 model.append(item)
+                sc = _mutate(Script, sc, model, lambda c: c.append(item))
                 label = "mutated"
             elif op[0] == "pop":
                 if model:
-                    sc.cmds.pop()
                     model.pop()
+                    sc = _mutate(Script, sc, model, lambda c: c.pop())
                 label = "mutated"
         return {"canon": hist, "viols": viols, "label": label}
 
